@@ -67,7 +67,8 @@ FileObligations(keys, ms, out) ==
         want == Len(fo.old) + Len(ms)
         k == want - Len(all)                                       \* lines that retention removed (the oldest ones)
         rotating == fo.N # 1                                       \* a count limit of 1 means "never rotate"
-        startRot == rotating /\ fo.old # <<>> /\ (fo.startup \/ fo.daily)   \* the planted file is from an earlier day
+        \* the planted file is from an earlier day; the sink looks at it when its first message arrives
+        startRot == rotating /\ fo.old # <<>> /\ (fo.startup \/ fo.daily) /\ ms # <<>>
     IN  /\ k >= 0 /\ (k > 0 => fo.N >= 2)
         /\ \A i \in 1..Len(all) :
                LET j == k + i IN
